@@ -17,7 +17,7 @@
 #define KN 2
 #define VF_SZ_LIST(X) X(1) X(2) X(3) X(4) X(5) X(6) X(7)
 #define VF_INPUTS(X) X(unsigned char, path, [PL + 1]) X(unsigned char, from, [PL + 1]) X(unsigned char, has, ) X(unsigned char, pathkind, ) X(unsigned char, fromkind, ) X(unsigned char, opkind, ) \
-    X(unsigned char, pkind, ) X(unsigned char, n, ) X(unsigned char, key, [KN][2]) X(unsigned char, gp_sel, [4]) X(unsigned char, cmp, ) X(unsigned char, dup_ok, ) X(unsigned char, fail_at, ) X(unsigned char, optext, [4])
+    X(unsigned char, pkind, ) X(unsigned char, n, ) X(unsigned char, key, [KN][2]) X(unsigned char, gp_sel, [4]) X(unsigned char, cmp, ) X(unsigned char, dup_ok, ) X(unsigned char, fail_at, ) X(unsigned char, optext, [8])
 #include "vf.h"
 #include "vf_str.h"
 #include "vf_mem.h"
@@ -161,7 +161,7 @@ int main(VF_MAIN_ARGS)
         static const char *names[7] = { "xx", "add", "remove", "replace", "move", "copy", "test" };
         cJSON *chain[4]; unsigned cn = 0, j;
         strcpy(optxt, names[OPC]);
-        if (OPC == 0) { memcpy(optxt, IN.optext, 3); optxt[3] = 0; VF_ASSUME(strcmp(optxt, "add") != 0); }
+        if (OPC == 0) { memcpy(optxt, IN.optext, 7); optxt[7] = 0; VF_ASSUME(strcmp(optxt, "add") != 0 && strcmp(optxt, "remove") != 0 && strcmp(optxt, "replace") != 0 && strcmp(optxt, "move") != 0 && strcmp(optxt, "copy") != 0 && strcmp(optxt, "test") != 0); }   /* every other text, e.g. "added", "Add", "" */
         m_op.type = (IN.opkind & 1) ? cJSON_Number : cJSON_String; m_op.valuestring = optxt; m_op.string = (char *)"op";
         memcpy(pathbuf, IN.path, PL); pathbuf[PL] = 0; memcpy(frombuf, IN.from, PL); frombuf[PL] = 0;
         m_path.type = (IN.pathkind & 1) ? cJSON_Number : cJSON_String; m_path.valuestring = (IN.pathkind & 1) ? (char *)0 : pathbuf; m_path.string = (char *)"path";
